@@ -609,6 +609,9 @@ func encodeXtext(raw string) string {
 			out.WriteRune(ch)
 		default:
 			out.WriteRune('+')
+			if ch < 0x10 {
+				out.WriteRune('0') // hexchar is exactly two digits
+			}
 			out.WriteString(strings.ToUpper(strconv.FormatInt(int64(ch), 16)))
 		}
 	}
